@@ -117,7 +117,7 @@ func startStubs() {
 	// The engine never closes the bodies of its health-check / admin responses, so
 	// every reload would pin connections for ever; a client timeout bounds their
 	// life (the stubs answer at once), and the descriptor limit is raised.
-	http.DefaultClient.Timeout = 2 * time.Second
+	http.DefaultClient.Timeout = 10 * time.Second
 	var rl syscall.Rlimit
 	if syscall.Getrlimit(syscall.RLIMIT_NOFILE, &rl) == nil && rl.Cur < rl.Max {
 		rl.Cur = rl.Max
@@ -126,6 +126,13 @@ func startStubs() {
 	for _, p := range []string{os.Getenv("HAPROXY_MANAGE_ENDPOINTS_PORT"), os.Getenv("LUNAR_HEALTHCHECK_PORT")} {
 		l, err := net.Listen("tcp", ":"+p)
 		if err != nil {
+			// somebody took the port between the probe and now: start over (the
+			// ports are baked into the engine's package variables by now)
+			if n := len(os.Getenv(childEnv)); n < 4 {
+				os.Setenv(childEnv+"_RETRY", os.Getenv(childEnv)+"1")
+				os.Unsetenv(childEnv)
+				reexecWithEnv()
+			}
 			panic(err)
 		}
 		mux := http.NewServeMux()
